@@ -196,7 +196,7 @@ def param_rows(rng, k):
 
 
 def gen_domain(rng, max_depth=2, dim=None, dep=None, k=None, allow=("bool", "prim", "translate", "rotate", "product"),
-               pairing=True):
+               pairing=True, strong=False):
     """returns dict(spec=..., rows=..., info=...) for a solid (full-dimensional) domain"""
     dim = int(rng.choice([1, 2, 2, 2, 3])) if dim is None else dim
     k = int(rng.choice(KS)) if k is None else k
@@ -213,6 +213,10 @@ def gen_domain(rng, max_depth=2, dim=None, dep=None, k=None, allow=("bool", "pri
         # the regions of different parameter rows differ by at least 0.75 * scale (mis-pairing is observable)
         # while max |coordinate| / size stays <= ~10 (float32 conditioning regime of DESIGN.md 3.1)
         move[0] = scale * (1.5 if pairing else rng.uniform(0.5, 1.5))
+        if strong:
+            # pairing stress: regions of different rows are disjoint (>= 4 sizes apart); used for interior sampling only,
+            # where no float32 boundary tolerance of the library is involved
+            move[0] = scale * 8.0
     ctx = Ctx(rng, dep, k, move, dim)
     kind = str(rng.choice(allow))
     log = []
